@@ -452,7 +452,7 @@ namespace igris
     igris_atoi32(const char *buf, uint8_t base, char **end)
     {
         uint8_t minus;
-        int32_t u;
+        uint32_t u;
 
         minus = *buf == '-';
         if (minus)
@@ -466,7 +466,7 @@ namespace igris
     igris_atoi64(const char *buf, uint8_t base, char **end)
     {
         uint8_t minus;
-        int64_t u;
+        uint64_t u;
 
         minus = *buf == '-';
         if (minus)
